@@ -25,7 +25,7 @@ REPO = os.environ.get("YMQ_REPO", "/repo")
 ROOT = os.path.dirname(os.path.dirname(os.path.abspath(__file__)))
 
 THEOREMS = ["Ymq.C16." + t for t in (
-    "ecm_cover ecm128_cover pp1_cover pm1_cover ecm_grid_exact ecm128_grid_exact pp1_grid_exact pm1_grid_exact ecm_hits_exact pp1_hits_exact pm1_hits_exact ecm_nothing_above pp1_nothing_above pm1_nothing_above pm1_hit chirpz_coeff pp1_hit ecm_hit chebyshev_recurrence chebyshev_spec exp_modn_spec exp_modn_large_spec gcd_factors_prod rho64_proper guard_proper cumulative_products_chain check_gcd_factors_inv pm1_result_proper shrink_ring_consistent check_gcd_factor_proper rho_impl_proper ynorm_spec ynorm_compare pm1base_full_stage1 pm1base_cover pm1base_hit pm1_found pp1_found ecm_found rows_ok pm1_degree pm1_rows_eff pm1_poly_rows reported_le_effective_ecm_counter reported_le_effective_pp1_counter reported_le_effective_pm1_counter ecm_badRows pp1_badRows pm1_badRows bad_rows_miss_a_value reported_le_effective_partial_ecm reported_le_effective_partial_pp1 reported_le_effective_partial_pm1 ecm128_arms_exact walk_reported_counter walk_reported_arms arms_contiguous_ecm arms_contiguous_ecm128 arms_contiguous_pp1 arms_d1_primes_below_b1 ecm_arm_covers ecm128_arm_covers").split()]
+    "ecm_cover ecm128_cover pp1_cover pm1_cover ecm_grid_exact ecm128_grid_exact pp1_grid_exact pm1_grid_exact ecm_hits_exact pp1_hits_exact pm1_hits_exact ecm_nothing_above pp1_nothing_above pm1_nothing_above pm1_hit chirpz_coeff pp1_hit ecm_hit chebyshev_recurrence chebyshev_spec exp_modn_spec exp_modn_large_spec gcd_factors_prod rho64_proper guard_proper cumulative_products_chain check_gcd_factors_inv pm1_result_proper shrink_ring_consistent check_gcd_factor_proper rho_impl_proper ynorm_spec ynorm_compare pm1base_full_stage1 pm1base_cover pm1base_hit pm1_found pp1_found ecm_found rows_ok pm1_degree pm1_rows_eff pm1_poly_rows reported_le_effective_ecm_counter reported_le_effective_pp1_counter reported_le_effective_pm1_counter ecm_badRows pp1_badRows pm1_badRows bad_rows_miss_a_value bad_row_witnesses_prime reported_le_effective_partial_ecm reported_le_effective_partial_pp1 reported_le_effective_partial_pm1 ecm128_arms_exact walk_reported_counter walk_reported_arms arms_contiguous_ecm arms_contiguous_ecm128 arms_contiguous_pp1 arms_d1_primes_below_b1 ecm_arm_covers ecm128_arm_covers").split()]
 HYPOTHESES = [
     "C17 (stage-1 exponent coverage): the exponent E accumulated by stage 1 is divisible by every prime power below B1 "
     "(and by every prime <= B1 for P-1/P+1); enters pm1_hit / pp1_hit / ecm_hit as the premise `group order of p divides E*m`",
@@ -56,8 +56,8 @@ UNMODELLED = [
     "(checked on the real table by the request s2_pm1base_data); outcome compared with the model for budgets >= 1024 only",
     "y-normalisation of ecm_curve: modelled (ynorm) and proved (ynorm_spec, ynorm_compare); tied to the code by the translator's "
     "pattern check of the two loops in both files and end to end by the constructed-order ECM runs (no separate request: the block is inline)",
-    "bad-row prime witnesses: that the first missed value listed for a bad row is prime is checked by the translator and the oracle "
-    "(Miller-Rabin), not in Lean; Lean proves it is not a grid value and does not divide one",
+    "bad-row prime witnesses: primality is proved in Lean from Pratt certificates generated by the translator "
+    "(bad_row_witnesses_prime; Lucas criterion from Mathlib, kernel evaluation of the certificate table)",
 ]
 CLAIM = ("Lean theorems: for arbitrary d1, d2 (6 | d1) every l coprime to d1 up to the stated upper end is a value i*d1 +- b (ECM, ECM128, "
          "P+1) resp. q*d1 - r (P-1 polynomial evaluation) of the grid the code walks, and nothing above the upper end is; the algebra that "
